@@ -465,7 +465,7 @@ pub fn circ_lz_full_d6_c4() {
     circ_lz_full::<6, 4>()
 }
 
-//@ harness props=C09,C01 tier=quick unwind=12 mem_gb=4 timeout=600
+//@ harness props=C09,C01,C04 tier=quick unwind=12 mem_gb=4 timeout=600
 //@ bound: last_n/last_or on circular window D=3 cursor=1 full, any dist
 #[cfg_attr(kani, kani::proof)]
 #[cfg_attr(kani, kani::stub(std::fmt::format, crate::verif_common::stub_format))]
@@ -474,7 +474,7 @@ pub fn circ_last_full_d3_c1() {
     circ_last_full::<3, 1>()
 }
 
-//@ harness props=C09,C01 tier=quick unwind=12 mem_gb=4 timeout=600
+//@ harness props=C09,C01,C04 tier=quick unwind=12 mem_gb=4 timeout=600
 //@ bound: last_n/last_or on circular window D=2 cursor=0 full, any dist
 #[cfg_attr(kani, kani::proof)]
 #[cfg_attr(kani, kani::stub(std::fmt::format, crate::verif_common::stub_format))]
@@ -483,7 +483,7 @@ pub fn circ_last_full_d2_c0() {
     circ_last_full::<2, 0>()
 }
 
-//@ harness props=C09,C10,C07 tier=quick unwind=12 mem_gb=6 timeout=900 opt_covers=lit_wrap
+//@ harness props=C09,C10,C07,C04 tier=quick unwind=12 mem_gb=6 timeout=900 opt_covers=lit_wrap
 //@ bound: first lap D=3 cursor=1: append_literal (any memlimit) or append_lz(len 1, any dist, any memlimit)
 #[cfg_attr(kani, kani::proof)]
 #[cfg_attr(kani, kani::stub(std::fmt::format, crate::verif_common::stub_format))]
@@ -501,7 +501,7 @@ pub fn circ_first_lap_d4_c2_n2() {
     circ_first_lap::<4, 2, 2, false>()
 }
 
-//@ harness props=C09,C10 tier=quick unwind=12 mem_gb=6 timeout=900 opt_covers=memlimit_hit
+//@ harness props=C09,C10,C04 tier=quick unwind=12 mem_gb=6 timeout=900 opt_covers=memlimit_hit
 //@ bound: first lap D=2 cursor=1: append_literal / append_lz(len 2) crossing the first wrap, no memlimit
 #[cfg_attr(kani, kani::proof)]
 #[cfg_attr(kani, kani::stub(std::fmt::format, crate::verif_common::stub_format))]
@@ -519,7 +519,7 @@ pub fn circ_first_lap_d3_c0_n1() {
     circ_first_lap::<3, 0, 1, true>()
 }
 
-//@ harness props=C12,C01 tier=quick unwind=12 mem_gb=4 timeout=600
+//@ harness props=C12,C01,C15 tier=quick unwind=12 mem_gb=4 timeout=600
 //@ bound: LzCircularBuffer::finish D=3 cursor=2, sink failing or not
 #[cfg_attr(kani, kani::proof)]
 #[cfg_attr(kani, kani::stub(std::fmt::format, crate::verif_common::stub_format))]
@@ -668,7 +668,7 @@ pub fn accum_append_bytes_l3() {
     forget(b);
 }
 
-//@ harness props=C12,C01 tier=quick unwind=12 mem_gb=4 timeout=600
+//@ harness props=C12,C01,C15 tier=quick unwind=12 mem_gb=4 timeout=600
 //@ bound: LzCircularBuffer::finish on an EMPTY window (nothing ever produced), sink failing or not: the sink is still flushed
 #[cfg_attr(kani, kani::proof)]
 #[cfg_attr(kani, kani::stub(std::fmt::format, crate::verif_common::stub_format))]
